@@ -23,14 +23,22 @@
        leaves the context unchanged, at any position and under any limit
        (C04_schema_roundtrip_in_context), hence for a whole input
        (C04_schema_roundtrip).
-   PARTIAL: OPTIONAL/CHOICE fields and the string/OID leaves are not in the
-   schema datatype; they are covered by the leaf theorems, by
-   C04_typed_field_read, and as a whole by c04.roundtrip (random typed records
-   through the real combinators).  Captured / OctetString / wrapped encoders
+     - records with OPTIONAL fields: the same for schemas whose record fields
+       may be OPTIONAL (present or absent), under the X.680 rule that the tag
+       of an optional field differs from the tags that may follow it: the
+       typed readers (take_opt_* for optional fields) return exactly the
+       value, an absent field being recognised by the following tag, the end
+       of a definite parent, the end-of-contents of an indefinite one or the
+       end of the input (C04_optional_schema_roundtrip_in_context,
+       C04_optional_schema_roundtrip).
+   PARTIAL: CHOICE fields and the string/OID leaves are not in the schema
+   datatype; they are covered by the leaf theorems, by C04_typed_field_read,
+   and as a whole by c04.roundtrip (random typed records through the real
+   combinators).  Captured / OctetString / wrapped encoders
    are outside `structural`. *)
 Require Import BV.Model.Base BV.Model.SrcB BV.Model.Twos BV.Model.Int.
 Require Import BV.Model.Length BV.Model.Tag BV.Model.Content BV.Model.Encode BV.Model.Prog.
-Require Import BV.Proofs.SrcBP BV.Proofs.IntP BV.Proofs.IntEncP BV.Proofs.WinP BV.Proofs.GrammarP BV.Proofs.EncGrammarP BV.Proofs.TypedP BV.Proofs.SchemaP.
+Require Import BV.Proofs.SrcBP BV.Proofs.IntP BV.Proofs.IntEncP BV.Proofs.WinP BV.Proofs.GrammarP BV.Proofs.EncGrammarP BV.Proofs.TypedP BV.Proofs.SchemaP BV.Proofs.Schema2P.
 
 Theorem C04_encoders_write_the_grammar : forall e m d,
   structural e -> enc_write m e = Ok d -> encs m (tlvs_of e) d.
@@ -99,6 +107,29 @@ Example C04_schema_ex :
   schema_ok s /\ exists e, enc_s s v = Some e /\ enc_write Der e = Ok [48; 11; 2; 2; 254; 212; 49; 5; 1; 1; 255; 5; 0].
 Proof. exact schema_example. Qed.
 
+(* records with OPTIONAL fields *)
+Theorem C04_optional_schema_roundtrip_in_context : forall s v e m d,
+  ok2 s -> enc2 s v = Some e -> enc_write m e = Ok d ->
+  1 <= len d /\ (exists k tl, d = tag_write k (tag_of s) ++ tl) /\
+  forall fuel c rest l, (depth2 s <= fuel)%nat -> reads m (cmd c) -> octets_ok (d ++ rest) = true ->
+    lim_ge l (len d) -> ctx_ok c l ->
+    dec2 fuel s c (mkSrc (d ++ rest) l None) = (Ok (Some v, c), mkSrc rest (lim_sub l (len d)) None).
+Proof. exact schema2_roundtrip. Qed.
+
+Theorem C04_optional_schema_roundtrip : forall s v e m m' d,
+  ok2 s -> enc2 s v = Some e -> enc_write m e = Ok d -> octets_ok d = true ->
+  m' = m \/ (m = Der /\ m' = Ber) ->
+  decode_src m' (fun c => mandatory (dec2 (depth2 s) s c)) (pure_src d None) = (Ok v, pure_src [] None).
+Proof. exact schema2_roundtrip_top. Qed.
+
+Example C04_optional_schema_ex :
+  let s := S2Seq T_SEQUENCE [(true, S2Leaf T_BOOLEAN LBool); (false, S2Leaf T_INTEGER (LInt 2));
+                             (true, S2Seq T_SET [(false, S2Leaf T_NULL LNull)]); (true, S2Leaf T_NULL LNull)] in
+  let v := VSeq [VOpt None; VInt (-300); VOpt (Some (VSeq [VNull])); VOpt None] in
+  ok2 s /\ exists e, enc2 s v = Some e /\ enc_write Der e = Ok [48; 8; 2; 2; 254; 212; 49; 2; 5; 0] /\
+  decode_src Der (fun c => mandatory (dec2 (depth2 s) s c)) (pure_src [48; 8; 2; 2; 254; 212; 49; 2; 5; 0] None) = (Ok v, pure_src [] None).
+Proof. exact schema2_example. Qed.
+
 Example C04_ex : enc_int 3 (-129)%Z = [255; 127] /\ enc_int 9 (2^64)%Z = [1;0;0;0;0;0;0;0;0].
 Proof. split; vm_compute; reflexivity. Qed.
 
@@ -113,3 +144,5 @@ Print Assumptions C04_boolean_roundtrip.
 Print Assumptions C04_null_roundtrip.
 Print Assumptions C04_schema_roundtrip_in_context.
 Print Assumptions C04_schema_roundtrip.
+Print Assumptions C04_optional_schema_roundtrip_in_context.
+Print Assumptions C04_optional_schema_roundtrip.
